@@ -1417,7 +1417,7 @@ def sec_misc(m):
     (REMOVED, host C01); the keyword pass-through of Tree.print (PRINT, host C16); mermaid.DEFAULT_DIRECTION and the
     defaults of the four flowchart signatures (host C17)."""
     lines = []
-    tree, node, typed, mermaid = m["tree"], m["node"], m["typed"], m["mermaid"]
+    tree, node, typed = m["tree"], m["node"], m["typed"]
     lines.append(f"Definition DELETED_TAG : list Z := {text(const_str(module_assign(tree, '_DELETED_TAG')))}.")
     tcls = class_def(tree, "Tree")
     unreg = func_def(tcls, "_unregister")
@@ -1465,26 +1465,39 @@ def sec_misc(m):
     lines.append(f"Definition UNREGISTER_CALLS : Z := {calls}%Z.")
     lines.append(f"Definition UNREGISTER_CALLS_PASSING_CLEAR : Z := {with_clear}%Z.")
 
+    return lines
+
+
+def kwdefaults(fn):
+    out = []
+    for a, d in zip(fn.args.kwonlyargs, fn.args.kw_defaults):
+        if d is None:
+            continue        # a required keyword-only parameter
+        if isinstance(d, ast.Constant) and d.value is None:
+            out.append((a.arg, "None"))
+        elif isinstance(d, ast.Constant) and isinstance(d.value, bool):
+            out.append((a.arg, "True" if d.value else "False"))
+        elif isinstance(d, ast.Constant) and isinstance(d.value, str):
+            out.append((a.arg, repr(d.value)))
+        elif isinstance(d, ast.Name):
+            out.append((a.arg, d.id))
+        else:
+            raise Unsupported(f"{fn.name}: unsupported default of {a.arg}")
+    return out
+
+
+
+def sec_misc_print(m):
+    """Tree.print (part PRINT, host C16): the keyword pass-through to format() and the defaults"""
+    lines = []
+    tcls = class_def(m["tree"], "Tree")
+
+    def pairs(ps):
+        return "[" + "; ".join(f"({text(a)}, {text(b)})" for a, b in ps) + "]"
+
     # Tree.print: exactly `print(self.format(k=k ...), file=file)`; the keyword-only parameters and their defaults
     pr = func_def(tcls, "print")
     fm = func_def(tcls, "format")
-
-    def kwdefaults(fn):
-        out = []
-        for a, d in zip(fn.args.kwonlyargs, fn.args.kw_defaults):
-            if d is None:
-                continue        # a required keyword-only parameter
-            if isinstance(d, ast.Constant) and d.value is None:
-                out.append((a.arg, "None"))
-            elif isinstance(d, ast.Constant) and isinstance(d.value, bool):
-                out.append((a.arg, "True" if d.value else "False"))
-            elif isinstance(d, ast.Constant) and isinstance(d.value, str):
-                out.append((a.arg, repr(d.value)))
-            elif isinstance(d, ast.Name):
-                out.append((a.arg, d.id))
-            else:
-                raise Unsupported(f"{fn.name}: unsupported default of {a.arg}")
-        return out
 
     body = [st for st in pr.body if not (isinstance(st, ast.Expr) and isinstance(st.value, ast.Constant))]
     ok = (len(body) == 1 and isinstance(body[0], ast.Expr) and isinstance(body[0].value, ast.Call)
@@ -1509,6 +1522,18 @@ def sec_misc(m):
     lines.append(f"Definition FORMAT_KWONLY : list (list Z * list Z) := {pairs(kwdefaults(fm))}.")
     lines.append(f"Definition PRINT_TO_FORMAT : list (list Z * list Z) := {pairs(passed(call.args[0]))}.")
     lines.append(f"Definition PRINT_TO_PRINT : list (list Z * list Z) := {pairs(passed(call))}.")
+
+    return lines
+
+
+def sec_misc_mermaid(m):
+    """mermaid.DEFAULT_DIRECTION and the defaults of the four flowchart signatures (host C17)"""
+    lines = []
+    tree, node, mermaid = m["tree"], m["node"], m["mermaid"]
+    tcls = class_def(tree, "Tree")
+
+    def pairs(ps):
+        return "[" + "; ".join(f"({text(a)}, {text(b)})" for a, b in ps) + "]"
 
     # mermaid
     lines.append(f"Definition MERMAID_DEFAULT_DIRECTION : list Z := {text(const_str(module_assign(mermaid, 'DEFAULT_DIRECTION')))}.")
@@ -1542,7 +1567,9 @@ SECTIONS = [
     ("LOCK", sec_lock, ["tree", "typed", "fs", "dot", "node"]),
     ("NAV", sec_nav, ["node"]),
     ("NAVT", sec_navt, ["typed"]),
-    ("MISC", sec_misc, ["tree", "node", "typed", "mermaid"]),
+    ("MISC", sec_misc, ["tree", "node", "typed"]),
+    ("MISCPRINT", sec_misc_print, ["tree"]),
+    ("MISCMERMAID", sec_misc_mermaid, ["tree", "node", "mermaid"]),
 ]
 FILES = dict(common="common.py", tree="tree.py", typed="typed_tree.py", fs="fs.py", diff="diff.py", mermaid="mermaid.py",
              dot="dot.py", init="__init__.py", node="node.py")
